@@ -1438,7 +1438,276 @@ func (ip *idxProver) prove(fn *Func, at ast.Node, goals []goal, depth int) (bool
 			return true, fmt.Sprintf("precondition %s established at all %d call sites", failed[0].text, len(sites))
 		}
 	}
+	if depth == 0 {
+		if ip.provePaths(fn, at, goals) {
+			return true, "established on every path (values re-assigned under a test: clamping, defaults)"
+		}
+	}
 	return false, "no dominating fact establishes " + failed[0].text
+}
+
+// provePaths is the path-sensitive fallback of prove for locals that are re-assigned under
+// a test (`if from < 0 { from = 0 }`): the goals are carried backwards from `at` over every
+// CFG path; an assignment `v = e` to a local replaces v by e in the goals (weakest
+// precondition), an edge adds its condition as an assumption, and at every join-free point
+// the ordinary dominance-based prover is asked. Every path must succeed within the budget;
+// cycles, compound assignments, address-taken or captured locals fail.
+func (ip *idxProver) provePaths(fn *Func, at ast.Node, goals []goal) bool {
+	g := fn.CFG()
+	blk := fn.BlockOf(at)
+	atNode := fn.CFGNodeOf(at)
+	if g == nil || blk == nil || atNode == nil {
+		return false
+	}
+	info := fn.Info()
+	root := rootFunc(fn)
+	preds := map[*cfgpkg.Block][]*cfgpkg.Block{}
+	for _, b := range g.Blocks {
+		for _, sc := range b.Succs {
+			preds[sc] = append(preds[sc], b)
+		}
+	}
+	// the locals the goals speak about must be plain locals of this function
+	okLocal := func(o types.Object) bool {
+		v, ok := o.(*types.Var)
+		if !ok || v.IsField() || v.Parent() == fn.Pkg.Types.Scope() {
+			return false
+		}
+		if fn.Lit != nil && (v.Pos() < fn.Lit.Pos() || v.Pos() > fn.Lit.End()) {
+			return false
+		}
+		for _, a := range root.Assignments(o) {
+			if _, isAddr := a.(*ast.UnaryExpr); isAddr {
+				return false
+			}
+			if fn.BlockOf(a) == nil {
+				if _, isSpec := a.(*ast.ValueSpec); !isSpec {
+					return false // assigned inside a nested literal
+				}
+			}
+		}
+		return true
+	}
+	type cond struct {
+		e   ast.Expr
+		pol bool
+	}
+	budget := 400
+	onPath := map[*cfgpkg.Block]bool{}
+	mentions := func(e ast.Expr, o types.Object) bool {
+		found := false
+		ast.Inspect(e, func(n ast.Node) bool {
+			if id, ok := n.(*ast.Ident); ok && info.ObjectOf(id) == o {
+				found = true
+			}
+			return !found
+		})
+		return found
+	}
+	local := func(at2 ast.Node, gs []goal, cs []cond) bool {
+		if root.extraGuard == nil {
+			root.extraGuard = map[ast.Node]*Formula{}
+		}
+		old, had := root.extraGuard[at2]
+		var parts []*Formula
+		if had && old != nil {
+			parts = append(parts, old)
+		}
+		for _, c := range cs {
+			parts = append(parts, decompose(c.e, c.pol, nil))
+		}
+		if len(parts) > 0 {
+			root.extraGuard[at2] = fAnd(parts...)
+		}
+		ok, _ := ip.prove(fn, at2, gs, 3)
+		if had {
+			root.extraGuard[at2] = old
+		} else {
+			delete(root.extraGuard, at2)
+		}
+		return ok
+	}
+	var back func(b *cfgpkg.Block, upto int, gs []goal, cs []cond, depth int) bool
+	back = func(b *cfgpkg.Block, upto int, gs []goal, cs []cond, depth int) bool {
+		budget--
+		if budget <= 0 || depth > 10 {
+			return false
+		}
+		for i := upto - 1; i >= 0; i-- {
+			n := b.Nodes[i]
+			var lhs []ast.Expr
+			var rhs []ast.Expr
+			switch st := n.(type) {
+			case *ast.AssignStmt:
+				if len(st.Lhs) != len(st.Rhs) {
+					// x, ok := f(): the goals must not speak about what it defines
+					for _, l := range st.Lhs {
+						if id, ok := ast.Unparen(l).(*ast.Ident); ok {
+							if o := info.ObjectOf(id); o != nil {
+								for _, gl := range gs {
+									if mentions(gl.e, o) {
+										return local(n, gs, cs)
+									}
+								}
+							}
+						}
+					}
+					continue
+				}
+				if st.Tok != token.ASSIGN && st.Tok != token.DEFINE {
+					for _, l := range st.Lhs {
+						if id, ok := ast.Unparen(l).(*ast.Ident); ok {
+							if o := info.ObjectOf(id); o != nil {
+								for _, gl := range gs {
+									if mentions(gl.e, o) {
+										return false
+									}
+								}
+							}
+						}
+					}
+					continue
+				}
+				lhs, rhs = st.Lhs, st.Rhs
+			case *ast.IncDecStmt:
+				if id, ok := ast.Unparen(st.X).(*ast.Ident); ok {
+					if o := info.ObjectOf(id); o != nil {
+						for _, gl := range gs {
+							if mentions(gl.e, o) {
+								return false
+							}
+						}
+					}
+				}
+				continue
+			default:
+				continue
+			}
+			// simultaneous substitution of the assigned locals
+			type sub struct {
+				o types.Object
+				e ast.Expr
+			}
+			var subs []sub
+			for k, l := range lhs {
+				id, ok := ast.Unparen(l).(*ast.Ident)
+				if !ok {
+					// a store into a field / element the goals or assumptions speak about
+					if lp := pathOf(info, l); lp != "" {
+						for _, gl := range gs {
+							if strings.Contains(exprStr(gl.e), lp) {
+								return false
+							}
+						}
+						for _, c := range cs {
+							if strings.Contains(exprStr(c.e), lp) {
+								return false
+							}
+						}
+					} else if len(cs) > 0 {
+						return false
+					}
+					continue
+				}
+				o := info.ObjectOf(id)
+				if o == nil {
+					continue
+				}
+				used := false
+				for _, gl := range gs {
+					if mentions(gl.e, o) {
+						used = true
+					}
+				}
+				for _, c := range cs {
+					if mentions(c.e, o) {
+						used = true
+					}
+				}
+				if !used {
+					continue
+				}
+				if !okLocal(o) {
+					return false
+				}
+				subs = append(subs, sub{o, rhs[k]})
+			}
+			if len(subs) == 0 {
+				continue
+			}
+			if len(subs) > 1 {
+				return false // a, b = b, a: not needed so far
+			}
+			var ngs []goal
+			for _, gl := range gs {
+				ne, ok := substExpr(gl.e, subs[0].o, subs[0].e, info).(*ast.BinaryExpr)
+				if !ok {
+					return false
+				}
+				ngs = append(ngs, goal{ne, gl.text})
+			}
+			var ncs []cond
+			for _, c := range cs {
+				ncs = append(ncs, cond{substExpr(c.e, subs[0].o, subs[0].e, info), c.pol})
+			}
+			gs, cs = ngs, ncs
+			if local(n, gs, cs) {
+				return true
+			}
+		}
+		// the start of the block
+		if len(b.Nodes) > 0 && local(b.Nodes[0], gs, cs) {
+			return true
+		}
+		ps := preds[b]
+		if len(ps) == 0 || b.Index == 0 || onPath[b] {
+			return false
+		}
+		onPath[b] = true
+		defer delete(onPath, b)
+		n := 0
+		for _, p := range ps {
+			if !p.Live {
+				continue
+			}
+			n++
+			ncs := cs
+			if len(p.Succs) == 2 && len(p.Nodes) > 0 {
+				if ce, ok := p.Nodes[len(p.Nodes)-1].(ast.Expr); ok {
+					ncs = append(append([]cond{}, cs...), cond{ce, p.Succs[0] == b})
+				}
+			}
+			if !back(p, len(p.Nodes), gs, ncs, depth+1) {
+				return false
+			}
+		}
+		return n > 0
+	}
+	idx := -1
+	for i, n := range blk.Nodes {
+		if n == atNode {
+			idx = i
+		}
+	}
+	if idx < 0 {
+		return false
+	}
+	// only worth trying when a goal speaks about a re-assigned local
+	worth := false
+	for _, gl := range goals {
+		ast.Inspect(gl.e, func(n ast.Node) bool {
+			if id, ok := n.(*ast.Ident); ok {
+				if o := info.ObjectOf(id); o != nil && okLocal(o) && (len(fn.Assignments(o)) > 1 || (fn.isParam(o) && len(fn.Assignments(o)) > 0)) {
+					worth = true
+				}
+			}
+			return true
+		})
+	}
+	if !worth {
+		return false
+	}
+	return back(blk, idx, goals, nil, 0)
 }
 
 // substExpr clones an expression tree replacing identifier obj by repl.
